@@ -21,6 +21,8 @@ fn main() {
                 .change_case(!has("--no-change-case"))
                 .include_dirs(inc);
             if has("--keep") { b = b.keep_unknown_fields(idls.clone()); }
+            let dd: Vec<_> = flags.iter().filter_map(|f| f.strip_prefix("--dedup=")).map(|n| n.to_string().into()).collect();
+            if !dd.is_empty() { b = b.dedup(dd); }
             b.compile_with_config(services, output);
         }
         "protobuf" => {
